@@ -355,6 +355,7 @@ func registerVerifrt() {
 	ext(p+"HarnessLock", func(fr *frame, a []value) value { raceAcquire("harness-lock"); return nil })
 	ext(p+"HarnessUnlock", func(fr *frame, a []value) value { raceRelease("harness-lock"); return nil })
 	ext(p+"TimersNondet", func(fr *frame, a []value) value { S.timersNondet = a[0].(bool); return nil })
+	ext(p+"TimersRacy", func(fr *frame, a []value) value { S.timersRacy = a[0].(bool); return nil })
 	ext(p+"Concretize", func(fr *frame, a []value) value { return concretizeInt(a[0], "Concretize") })
 	ext(p+"IsSymbolicRun", func(fr *frame, a []value) value { return true })
 	ext(p+"Yield", func(fr *frame, a []value) value { S.switchPoint("yield"); return nil })
